@@ -496,6 +496,15 @@ fn recover(
                 page[PAGE_SIZE - 32 - 8..PAGE_SIZE - 32]
                     .copy_from_slice(&elided_children.to_bytes());
 
+                #[cfg(nomt_verif)]
+                crate::verif::io(
+                    ht_fd.as_raw_fd(),
+                    crate::verif::Op::Write {
+                        off: pn * PAGE_SIZE as u64,
+                        data: &page,
+                    },
+                    "ht.recover_write",
+                )?;
                 ht_fd.write_all_at(&page, pn * PAGE_SIZE as u64)?;
             }
         }
@@ -513,6 +522,15 @@ fn recover(
             page_data[..].copy_from_slice(meta_map.page_slice(changed_meta_page_ix));
 
             let pn = ht_offsets.meta_bytes_index(changed_meta_page_ix as u64);
+            #[cfg(nomt_verif)]
+            crate::verif::io(
+                ht_fd.as_raw_fd(),
+                crate::verif::Op::Write {
+                    off: pn * PAGE_SIZE as u64,
+                    data: page_data,
+                },
+                "ht.recover_write_meta",
+            )?;
             ht_fd.write_all_at(page_data, pn * PAGE_SIZE as u64)?;
 
             page_pool.dealloc(page);
